@@ -101,6 +101,12 @@ CHECKS = {
                                                                       r'"ev":"req_drop"': 10},
                      nontrivial=[r'"ev":"api_done","local"', r'"err":"re']),
             life_leg("life_storm", (60, 1500), {"connects": 12, "data": 0, "max_ports": 3}, nontrivial=[r'"err":"']),
+            life_leg("life_exhaust", (120, 3000), {"connects": 10, "max_ports": 2}, require={r'"free_ports":\[(true|false),(true|false)\]': 100},
+                     nontrivial=[r'"err":"local_ports"|"err":"remote_ports"']),
+            dict(CT, kind="trace", name="acc_cancel", workload="acc_cancel", n=(120, 3000), opts={}, require={r'"ev":"api_cancel"': 50, r'"kind":"req_accept"': 50},
+                 nontrivial=[r'"ev":"api_cancel"', r'"kind":"req_accept"']),
+            life_leg("life_bp", (120, 3000), {"connects": 8, "bp": 1, "max_ports": 3}, require={r'"ev":"backpressure"': 100},
+                     nontrivial=[r'"ev":"backpressure"', r'"kind":"req_accept"']),
         ],
     },
     "C11": {
@@ -114,6 +120,8 @@ CHECKS = {
                                                                           r'"err":"closed_dropped"': 10, r'"res":"none"': 30,
                                                                           r'"kind":"closed"': 30},
                      nontrivial=[r'"kind":"close"|"what":"receiver"', r'"kind":"send"']),
+            life_leg("life_override", (120, 3000), {"connects": 3, "calm": 1, "cancel": 0}, require={r'"override":true': 50, r'"kind":"close"': 30},
+                     nontrivial=[r'"override":true', r'"kind":"close"']),
         ],
     },
     "C06": {
